@@ -36,6 +36,7 @@ MODULES = {
     "cache": ("dns_cache.rs", "crates/erbium-core/src/dns/cache/mod.rs", "verif_cache"),
     "dhcpcfg": ("dhcp_cfg.rs", "crates/erbium-core/src/dhcp/config.rs", "verif_cfg"),
     "radv": ("radv_wire.rs", "crates/erbium-core/src/radv/icmppkt.rs", "verif_radv"),
+    "ratelimit": ("dns_ratelimit.rs", "crates/erbium-core/src/dns/mod.rs", "verif_ratelimit"),
 }
 
 
